@@ -6,6 +6,7 @@ From stdpp Require Import base list option.
 From RecordUpdate Require Import RecordSet.
 From RC Require Import Hdr Machine RunInd.
 From RC Require Import Inv InvP SafeHelpers SafePrims SafeCalls SafeMain SafeColl SafeFinal.
+From RC Require BufBase BufStep Buf.
 From RC Require Import LifeGhost Life LifeChk LifeInv LifeInv2 LifeStep LifeStep5.
 Import ListNotations RecordSetNotations.
 Local Open Scope N_scope.
@@ -282,5 +283,117 @@ End ProgLevel.
 
 Print Assumptions prog_evlife.
 Print Assumptions prog_fin_once.
+
+(** ** The frame between two top-level states of a run *)
+Section TopFrame.
+  Context (K : conf) (P : prog) (fuel : nat).
+  Hypothesis Hconf : k_clean K = true -> k_weak K = true.
+  Hypothesis Hwf : wf_prog P = true.
+
+  Lemma exec_top_len c m : BufBase.G K [] m -> (length (heap m) <= length (heap (exec_top K P fuel c m)))%nat.
+  Proof.
+    intros HG. unfold exec_top. destruct (Buf.run_buf K P fuel [] (KCmd None c) m HG) as (F & _).
+    destruct (run K P fuel (KCmd None c) m) as [m1 r]. cbn [fst] in F.
+    assert (Hle : (length (heap m) <= length (heap m1))%nat).
+    { apply heap_len_le. intros o x Hx. destruct (BufBase.fr_obj _ _ F o x Hx) as (x' & Hx' & _). eauto. }
+    destruct r; exact Hle.
+  Qed.
+  Lemma fold_len cmds : forall m, BufBase.G K [] m ->
+    (length (heap m) <= length (heap (fold_left (fun m c => exec_top K P fuel c m) cmds m)))%nat.
+  Proof.
+    induction cmds as [|c cs IH]; intros m HG; [cbn; lia|]. cbn [fold_left].
+    pose proof (exec_top_len c m HG). pose proof (IH _ (Buf.exec_top_G K P fuel c m HG)). lia.
+  Qed.
+  Lemma clean_fold cmds : forall m, clean (fold_left (fun m c => exec_top K P fuel c m) cmds m) = true -> clean m = true.
+  Proof.
+    induction cmds as [|c cs IH]; intros m H; [exact H|]. cbn [fold_left] in H.
+    apply IH in H. apply (clean_exec_top K P fuel c m H).
+  Qed.
+
+  Lemma Ls_mexec mu c m : Ls K mu false (length (heap m)) m (mexec_top K P chk mu fuel c m).
+  Proof.
+    unfold mexec_top.
+    destruct (mrun_life K P false ltac:(discriminate) mu fuel (KCmd None c) m ltac:(cbn; discriminate)) as [HL _].
+    destruct (mrun K P chk mu fuel (KCmd None c) m) as [m1 r]. cbn [fst snd] in *.
+    destruct r; [exact HL | | |]; (eapply Ls_q; [exact HL | lq]).
+  Qed.
+  Lemma Ls_mfold mu cmds : forall m,
+    Ls K mu false (length (heap m)) m (fold_left (fun m c => mexec_top K P chk mu fuel c m) cmds m).
+  Proof.
+    induction cmds as [|c cs IH]; intros m; [apply Ls_refl|]. cbn [fold_left].
+    eapply Ls_step; [apply Ls_mexec | apply IH].
+  Qed.
+
+  (** between two top-level states of a clean run every object only moves forward: a map stays a
+      map, a box that was never allocated / is freed stays so, a dropped value stays dropped, a
+      value whose construction failed stays uninitialised (with the same box state) *)
+  Theorem prog_frame cmds1 cmds2 :
+    let m1 := fold_left (fun m c => exec_top K P fuel c m) cmds1 (init K) in
+    let m2 := fold_left (fun m c => exec_top K P fuel c m) (cmds1 ++ cmds2) (init K) in
+    clean m2 = true ->
+    forall o x, get m1 o = Some x -> exists x', get m2 o = Some x' /\ ObjF x x'.
+  Proof.
+    intros m1 m2 Hcl2 o x Hx. set (mu := length (heap m2)).
+    assert (E2 : m2 = fold_left (fun m c => exec_top K P fuel c m) cmds2 m1) by (unfold m2; rewrite fold_left_app; reflexivity).
+    assert (Hcl1 : clean m1 = true) by (apply (clean_fold cmds2); rewrite <- E2; exact Hcl2).
+    assert (Hlen : (length (heap m1) <= mu)%nat).
+    { unfold mu. rewrite E2. apply fold_len. apply Buf.prog_G. }
+    pose proof (mfold_eq K P Hconf Hwf chk chk_dl (chk_ok K) mu fuel (cmds1 ++ cmds2) Hcl2 (Nat.le_refl _)) as EM2.
+    pose proof (mfold_eq K P Hconf Hwf chk chk_dl (chk_ok K) mu fuel cmds1 Hcl1 Hlen) as EM1.
+    rewrite fold_left_app, EM1 in EM2. fold m1 in EM2.
+    pose proof (Ls_mfold mu cmds2 m1) as HL. rewrite EM2 in HL. fold m2 in HL.
+    destruct HL as (_ & _ & C).
+    assert (HG : G mu m2).
+    { destruct (safe_programs_sinv K P fuel (cmds1 ++ cmds2) Hconf Hwf Hcl2) as (b & Hnb & HI & _). fold m2 in Hnb, HI.
+      split; [exact Hnb|]. destruct (mem_id mu (dead m2)) eqn:Hd; [|reflexivity]. exfalso.
+      destruct (sv_dead _ _ _ _ _ HI mu Hd) as [y Hy]. apply lookup_lt_Some in Hy. unfold mu in Hy. lia. }
+    destruct (C HG) as [_ F]. exact (F o x (lookup_lt_Some _ _ _ Hx) Hx).
+  Qed.
+End TopFrame.
+
+Print Assumptions prog_frame.
+
+(** a value under construction, or whose construction failed, is never dropped nor finalized: not
+    now, not later *)
+Theorem prog_uninit_never_touched K P fuel cmds1 cmds2 :
+  (k_clean K = true -> k_weak K = true) -> wf_prog P = true ->
+  let m1 := fold_left (fun m c => exec_top K P fuel c m) cmds1 (init K) in
+  let m2 := fold_left (fun m c => exec_top K P fuel c m) (cmds1 ++ cmds2) (init K) in
+  clean m2 = true ->
+  forall o x, get m1 o = Some x -> o_vst x = VUninit ->
+    (exists x', get m2 o = Some x' /\ o_vst x' = VUninit /\ o_box x' = o_box x) /\
+    (forall f, ~ In (ECb KDrop o f) (log m2)) /\ (forall f, ~ In (ECb KFin o f) (log m2)).
+Proof.
+  intros Hconf Hwf m1 m2 Hcl o x Hx Hv.
+  destruct (prog_frame K P fuel Hconf Hwf cmds1 cmds2 Hcl o x Hx) as (x' & Hx' & HF).
+  destruct (f_uninit _ _ HF Hv) as [Hv' Hb'].
+  split; [exists x'; auto|].
+  pose proof (prog_evlife K P fuel (cmds1 ++ cmds2) Hconf Hwf Hcl) as HE.
+  destruct (el_uninit_untouched K _ HE o x' Hx' Hv') as [Hd Hf].
+  split; intros f Hin.
+  - apply (cnt_zero_not_in _ _ _ Hd) in Hin; [exact Hin|]. cbn. apply Nat.eqb_refl.
+  - apply (cnt_zero_not_in _ _ _ Hf) in Hin; [exact Hin|]. cbn. apply Nat.eqb_refl.
+Qed.
+Print Assumptions prog_uninit_never_touched.
+
+Theorem prog_drop_once K P fuel cmds :
+  (k_clean K = true -> k_weak K = true) -> wf_prog P = true ->
+  let m := fold_left (fun m c => exec_top K P fuel c m) cmds (init K) in
+  clean m = true -> forall o : id, (cntE (isD o) (log m) <= 1)%nat.
+Proof. intros H1 H2 m H3. exact (el_drop_once K m (prog_evlife K P fuel cmds H1 H2 H3)). Qed.
+
+Theorem prog_free_facts K P fuel cmds :
+  (k_clean K = true -> k_weak K = true) -> wf_prog P = true ->
+  let m := fold_left (fun m c => exec_top K P fuel c m) cmds (init K) in
+  clean m = true ->
+  (forall o : id, (cntE (isF o) (log m) <= 1)%nat) /\
+  (forall (l1 : list event) (o : id) (s a : N) (l2 : list event), log m = l1 ++ EFree o s a :: l2 ->
+     In (EAlloc o s a) l2 /\ cntE (isF o) l2 = 0%nat /\ exists x : obj, get m o = Some x /\ (s, a) = box_layout K x) /\
+  (forall (o : id) (x : obj), get m o = Some x -> ((0 < cntE (isF o) (log m))%nat <-> o_box x = BFreed)) /\
+  (forall (o : id) (x : obj), get m o = Some x -> o_box x = BFreed -> o_vst x <> VLive).
+Proof.
+  intros H1 H2 m H3. pose proof (prog_evlife K P fuel cmds H1 H2 H3) as HE.
+  exact (conj (el_free_once K m HE) (conj (el_free_after_alloc K m HE) (conj (el_free_iff K m HE) (el_freed_state K m HE)))).
+Qed.
 
 Print Assumptions life_linv.
